@@ -43,9 +43,11 @@ def generate(rng, tier):
     if rng.random() < 0.009:
         nf = rng.choice([1001, 1500, 2500])      # size-dependent writer/reader paths
     # incl. names that are not in Unicode normal form (decomposed accent, compatibility characters): distinct keys stay distinct and unchanged
-    keys = rng.sample(["id", "name", "pop", "ratio", "flag", "a b", "ünï", "e\u0301", "\u00e9", "\u00b5m", "\ufb01x"], rng.randint(0, 5))
+    keys = rng.sample(["id", "name", "pop", "ratio", "flag", "a b", "ünï", "e\u0301", "\u00e9", "\u00b5m", "\ufb01x",
+                       # property keys named like attributes / reserved members of the object they are read into
+                       "metadata", "type", "properties", "features"], rng.randint(0, 5))
     kinds = {k: rng.choice(["bool", "int", "float", "str"]) for k in keys}
-    pools = {"bool": [True, False], "int": [0, 1, -5, 10**12], "float": [0.5, -2.25, 1e-7, 3.0], "str": ["x", "a b", 'q"uote', "ünï", "back\\slash", "line\nbreak", "ls\u2028sep", "e\u0301"]}
+    pools = {"bool": [True, False], "int": [0, 1, -5, 10**12, 2**64 + 5, -(2**63) - 7], "float": [0.5, -2.25, 1e-7, 3.0], "str": ["x", "a b", 'q"uote', "ünï", "back\\slash", "line\nbreak", "ls\u2028sep", "e\u0301"]}
     feats = []
     for i in range(nf):
         props = {}
